@@ -276,6 +276,26 @@ def gen_cfg(rng):
             "srv_conc": rng.randint(1, 2)}
 
 
+def gen_cfg_wide(rng):
+    """maximum-coverage configuration for the pool side: several idle workers looking for work at the SAME instant (constant
+    task times, same-instant batches, light load so that deques run empty and workers steal), a chained pool and a bank"""
+    cfg = gen_cfg(rng)
+    pool = cfg["pool"]
+    pool["workers"] = rng.choice([3, 4, 5, 8])
+    pool["chain_workers"] = rng.choice([2, 3])
+    pool["bank"] = [{"workers": w, "downstream": True, "default_ms": rng.choice([1, dur_ms(rng, 1, 50)])}
+                    for w in rng.sample([2, 3, 4, 6], 2)]
+    ms = rng.choice([5, 10, 20, 40])
+    pool["sources"] = [{"rate": rng.choice([5, 10, 20]), "poisson": False, "batch": rng.choice([2, 3, 4, 5]),
+                        "dist": {"kind": "const", "ms": ms}, "nokey_pct": rng.choice([0, 30])},
+                       {"rate": rng.choice([5, 10]), "poisson": rng.random() < 0.5, "batch": 1,
+                        "dist": {"kind": "palette", "ms": [ms, 2 * ms, 0]}, "nokey_pct": 0}]
+    pool["default_ms"] = ms
+    pool["zero_pct"] = rng.choice([0, 2])
+    pool["bursts"] = [[dur_ms(rng, 1, 1500), rng.choice([5, 7, 12])]]
+    return cfg
+
+
 # ------------------------------------------------------------------------------------------------ build
 def build(cfg, seed):
     from happysimulator.components.scheduling import JobDefinition, JobScheduler, WorkStealingPool
